@@ -208,3 +208,56 @@ func TestC18StartExceedsRF(t *testing.T) {
 	}
 }
 
+
+// Defect (q): a request that does not cover whole blocks is first completed from the RW replicas while a
+// WO replica is attached.  When that read fails on an RW replica the replica is dropped — and with RF 3,
+// two RW replicas and one WO, the volume has then lost its quorum — but the write went on and was fanned
+// out to (and acknowledged by) the one RW replica left and the rebuilding one.
+func TestC03WideningReadCostsQuorum(t *testing.T) {
+	os.Setenv("REPLICATION_FACTOR", "3")
+	w := fake.NewWorld()
+	c := controller.NewController(controller.WithName("v"), controller.WithBackend(&fake.Factory{W: w}),
+		controller.WithFrontend(&fake.Frontend{W: w}, "127.0.0.1"), controller.WithRF(3))
+	reg(c, "A", 5, "closed")
+	reg(c, "B", 5, "closed")
+	for _, a := range []string{"A", "B", "C"} {
+		w.Reps["tcp://"+a+":9502"] = &fake.Rep{Chain: []string{"volume-head-000.img"}, Rev: 5, Size: 1 << 20}
+	}
+	if err := c.Start("tcp://A:9502"); err != nil {
+		t.Fatal(err)
+	}
+	if err := c.AddReplica("tcp://B:9502"); err != nil {
+		t.Fatal(err)
+	}
+	c.SetReplicaMode("tcp://B:9502", types.RW)
+	if err := c.AddReplica("tcp://C:9502"); err != nil { // C stays WO: a rebuild is in progress
+		t.Fatal(err)
+	}
+	if c.ReadOnly {
+		t.Fatal("setup: read-only with two RW replicas of three")
+	}
+	// every read fails on A; the reader rotation asks it first within two requests
+	for i := 0; i < 4 && len(c.ListReplicas()) == 3; i++ {
+		w.Script = map[string]string{"tcp://A:9502:ReadAt": "err"}
+		w.ResetLog()
+		n, err := c.WriteAt(make([]byte, 512), 512) // not a whole block
+		if len(c.ListReplicas()) == 3 {
+			continue // the read was served by the other replica first
+		}
+		wrote := false
+		for _, call := range w.TakeCalls() {
+			if len(call) > 8 && call[len(call)-8:] == ":WriteAt" {
+				wrote = true
+			}
+		}
+		if !c.ReadOnly {
+			t.Fatalf("one RW replica of RF 3 left and the volume is not read-only")
+		}
+		if err == nil || wrote {
+			t.Fatalf("the write went on after the widening read had cost the volume its quorum: n=%d err=%v calls=%v replicas=%v",
+				n, err, w.TakeCalls(), c.ListReplicas())
+		}
+		return
+	}
+	t.Skip("no widening read failed (reader rotation)")
+}
